@@ -1,11 +1,13 @@
 package plugin
 
 import (
+	"encoding/binary"
 	"errors"
 	"io"
 	"net"
 	"net/rpc"
 	"strings"
+	"time"
 
 	"github.com/hashicorp/yamux"
 )
@@ -26,7 +28,29 @@ type strmGhost struct {
 	in      chan uint32
 	peer    *yamux.Stream
 	aborted bool // opened by the peer and dropped before the ID was written
+	rdl     int64 // read / write deadline: 0 none, else the clock instant + 1
+	wdl     int64
 }
+
+var errStreamTimeout = errors.New("i/o deadline reached")
+
+func dlOf(t time.Time) int64 { return vTimeNs(t) + 1 }
+
+// a deadline that has passed fails the operation (yamux checks the write deadline only when the send window is
+// exhausted: the model takes every write for one that large)
+func dlPassed(dl int64) bool { return dl != 0 && vNow() >= dl }
+
+//verif:model (*github.com/hashicorp/yamux.Stream).SetDeadline
+func mStreamSetDeadline(s *yamux.Stream, t time.Time) error {
+	strmG[s].rdl, strmG[s].wdl = dlOf(t), dlOf(t)
+	return nil
+}
+
+//verif:model (*github.com/hashicorp/yamux.Stream).SetReadDeadline
+func mStreamSetReadDeadline(s *yamux.Stream, t time.Time) error { strmG[s].rdl = dlOf(t); return nil }
+
+//verif:model (*github.com/hashicorp/yamux.Stream).SetWriteDeadline
+func mStreamSetWriteDeadline(s *yamux.Stream, t time.Time) error { strmG[s].wdl = dlOf(t); return nil }
 
 var sessG = map[*yamux.Session]*sessGhost{}
 var strmG = map[*yamux.Stream]*strmGhost{}
@@ -72,6 +96,9 @@ func vStreamReadU32(r io.Reader) (uint32, error) {
 	if g.aborted {
 		return 0, io.ErrUnexpectedEOF
 	}
+	if dlPassed(g.rdl) {
+		return 0, errStreamTimeout
+	}
 	return <-g.in, nil
 }
 
@@ -83,6 +110,9 @@ func openAborted(s *yamux.Session) {
 	sessG[s].conn.peer.acceptQ <- far
 }
 func vStreamWriteU32(w io.Writer, v uint32) error {
+	if dlPassed(strmG[w.(*yamux.Stream)].wdl) {
+		return errStreamTimeout
+	}
 	strmG[strmG[w.(*yamux.Stream)].peer].in <- v
 	return nil
 }
@@ -125,6 +155,9 @@ func mNewClient(conn io.ReadWriteCloser) *rpc.Client {
 
 //verif:model (*net/rpc.Client).Call
 func mCall(c *rpc.Client, serviceMethod string, args any, reply any) error {
+	if g := strmG[connOfClient[c]]; dlPassed(g.wdl) || dlPassed(g.rdl) {
+		return errStreamTimeout // the request cannot be written, or the reply cannot be read
+	}
 	srv := srvOfStream[strmG[connOfClient[c]].peer]
 	if srv == nil {
 		return errors.New("rpc: connection is not being served")
@@ -170,6 +203,11 @@ func harnessC06() {
 	_, e3 := client.Dispense("nope")
 	vAssert(e3 != nil, "C14: dispensing an unknown plugin name is an error")
 	vCover("dispensed")
+	// ... and keeps working: a call made any time later, well past the broker's five-second pending window
+	late := vNondetTime("late")
+	vAssume(late >= 6*sec && late < 9*sec)
+	vSleepUntil(late)
+	vAssert(r1.(*rpc.Client).Call("Plugin.Whoami", 0, &t1) == nil && t1 == 1, "C06: a dispensed client keeps working for as long as the connection is up")
 
 	// (2) raw broker: two distinct IDs, dialled from either side, accept and dial within the window in either order
 	id1, id2 := vNondetU32("id1"), vNondetU32("id2")
@@ -196,6 +234,11 @@ func harnessC06() {
 	vAssert(strmG[d1.(*yamux.Stream)].peer == c1.(*yamux.Stream), "C06: Dial(id1) is connected to Accept(id1)")
 	vAssert(strmG[d2.(*yamux.Stream)].peer == c2.(*yamux.Stream), "C06: Dial(id2) is connected to Accept(id2)")
 	vCover("routed")
+	// data written on the dialled end any time later arrives at the accepted end
+	vSleepUntil(base + gap + 6*sec)
+	vAssert(binary.Write(d1, binary.LittleEndian, uint32(7)) == nil, "C06: a brokered connection carries data written long after it was established")
+	var got uint32
+	vAssert(binary.Read(c1, binary.LittleEndian, &got) == nil && got == 7, "C06: data written on the connection dialled for id1 arrives on the connection accepted for id1")
 	vDone()
 }
 
